@@ -129,6 +129,13 @@ class Ctx:
         h['dv'] = Const('dv' + tag, ArraySort(R, ArraySort(R, R)))
         h['f_namespaces'] = Const('f_namespaces' + tag, ArraySort(R, R))
         h['f_edif'] = Const('f_edif_namespaces' + tag, ArraySort(R, R))
+        # ghost ownership of dictionary objects (who allocated / stored it): role 1 = outer table of a policy object, 2 = inner per-type
+        # table, 3 = the manager's parent -> policy-object map; owner policy object, table kind (0 names / 1 identifiers), type key
+        h['g_role'] = Const('g_role' + tag, ArraySort(R, IntSort()))
+        h['g_own'] = Const('g_own' + tag, ArraySort(R, R))
+        h['g_kind'] = Const('g_kind' + tag, ArraySort(R, IntSort()))
+        h['g_tkey'] = Const('g_tkey' + tag, ArraySort(R, R))
+        h['g_par'] = Const('g_par' + tag, ArraySort(R, R))          # policy object -> the parent element it serves
         h['ns'] = Const('ns' + tag, ArraySort(R, DeclareSort('NsState')))   # opaque per-parent state of the stock listener's name tables
         h['nsdefault'] = Const('nsdefault' + tag, R)
         return h
